@@ -1,6 +1,7 @@
 package main
 
 import (
+	"encoding/hex"
 	"time"
 	"syscall"
 	"net"
@@ -626,6 +627,8 @@ func gitEngine(c *Ctx) {
 				gitNetExec(c, op)
 			} else if strings.HasPrefix(op, "git-concurrent") {
 				gitConcurrent(c, op)
+			} else if strings.HasPrefix(op, "git-hostile") {
+				gitHostile(c, strings.Fields(op)[0])
 			}
 		}
 		return
@@ -636,6 +639,7 @@ func gitEngine(c *Ctx) {
 	}
 	gitNetExec(c, "gitnet 1")
 	gitConcurrent(c, "git-concurrent")
+	gitHostile(c, "git-hostile")
 	laters := []string{"none", "commit", "branch", "dirty", "detach"}
 	filts := []string{losslessUnpackStr, losslessUnpackStr, "uid=mine,gid=mine,mtime=follow,sticky=follow,setid=follow,dev=follow", "uid=5,gid=6,mtime=@99,sticky=follow,setid=follow,dev=follow"}
 	for k := 0; k < n; k++ {
@@ -723,5 +727,150 @@ func gitConcurrent(c *Ctx, op string) {
 		}
 	}
 	c.H("git-concurrent")
+	c.EmitR(op, "skip", "skip")
+}
+
+// gitRawTree writes a tree object exactly as given (no fsck): entries are (octal mode, name, 40-hex object id).
+func gitRawTree(repo string, ents [][3]string) (string, error) {
+	var buf bytes.Buffer
+	for _, e := range ents {
+		raw, err := hex.DecodeString(e[2])
+		if err != nil {
+			return "", err
+		}
+		buf.WriteString(e[0] + " " + e[1] + "\x00")
+		buf.Write(raw)
+	}
+	return gitRawObject(repo, "tree", buf.Bytes())
+}
+
+func gitRawObject(repo, typ string, body []byte) (string, error) {
+	cmd := exec.Command("git", "hash-object", "-t", typ, "-w", "--literally", "--stdin")
+	cmd.Dir = repo
+	cmd.Stdin = bytes.NewReader(body)
+	out, err := cmd.Output()
+	return strings.TrimSpace(string(out)), err
+}
+
+// gitHostile: commits whose tree objects were written by hand — file modes outside the usual four, names that begin with
+// "/", ".." names, a commit whose tree is absent.  Each unpack answers (never panics); what is placed is what the model
+// places for the walked entries; nothing lands outside the destination.  Recipe: "git-hostile".
+func gitHostile(c *Ctx, op string) {
+	c.Begin(op)
+	gitCase++
+	base := filepath.Join(c.Work, fmt.Sprintf("gh%d", gitCase))
+	defer rmrf(base)
+	repo := filepath.Join(base, "repo")
+	os.MkdirAll(repo, 0755)
+	os.Setenv("RIO_CACHE", filepath.Join(base, "cache"))
+	os.Setenv("RIO_BASE", filepath.Join(base, "riobase"))
+	if _, err := gitCmd(repo, "init", "-q", "."); err != nil {
+		c.EmitR(op, "skip", "skip")
+		return
+	}
+	gitCmd(repo, "commit", "-q", "--allow-empty", "-m", "root")
+	blob, err := gitRawObject(repo, "blob", []byte("payload\n"))
+	if err != nil {
+		c.EmitR(op, "skip", "skip")
+		c.H("git-hostile-unavailable")
+		return
+	}
+	sub := func(ents ...[3]string) string { t, _ := gitRawTree(repo, ents); return t }
+	sub2, _ := gitRawObject(repo, "blob", []byte(".."))
+	type hcase struct {
+		name string
+		tree string
+		walk [][3]string // what go-git's walker yields: (path, mode letter, blob bytes)
+	}
+	cases := []hcase{
+		{"mode-100664", sub([3]string{"100664", "gw", blob}, [3]string{"100644", "n", blob}), [][3]string{{"gw", "g", "payload\n"}, {"n", "f", "payload\n"}}},
+		{"mode-100600", sub([3]string{"100600", "odd", blob}), [][3]string{{"odd", "?", "payload\n"}}},
+		{"mode-0", sub([3]string{"0", "zero", blob}), [][3]string{{"zero", "?", "payload\n"}}},
+		{"mode-100777", sub([3]string{"100644", "a", blob}, [3]string{"100777", "b", blob}), [][3]string{{"a", "f", "payload\n"}, {"b", "?", "payload\n"}}},
+		{"abs-name", sub([3]string{"100644", "/abs", blob}), [][3]string{{"/abs", "f", "payload\n"}}},
+		{"dotdot-file", sub([3]string{"100644", "..", blob}), nil},
+		{"dotdot-dir", sub([3]string{"40000", "..", sub([3]string{"100644", "escaped", blob})}), nil},
+		{"dotdot-slash", sub([3]string{"100644", "a/../../escaped2", blob}), nil},
+		{"dotdot-link", sub([3]string{"120000", "lnk", sub2}, [3]string{"40000", "lnk", sub([3]string{"100644", "escaped3", blob})}), nil},
+		{"abs-name-nested", sub([3]string{"40000", "d", sub([3]string{"100644", "/x", blob})}), [][3]string{{"d", "d", ""}, {"d/x", "f", "payload\n"}}},
+	}
+	uf := api.MustParseFilesetUnpackFilter(losslessUnpackStr)
+	wh := []api.WarehouseLocation{api.WarehouseLocation("file://" + filepath.Join(repo, ".git"))}
+	listing := func(dir string) string {
+		sn, _ := Snapshot(dir)
+		var lines []string
+		for _, e := range sn {
+			lines = append(lines, fmt.Sprintf("%s|%c|%d|%d|%d|%d|%s", hx(e.Name), e.Kind, permsOf(e), e.Uid, e.Gid, e.Sec, hx(e.Link)))
+		}
+		sort.Strings(lines)
+		return strings.Join(lines, ",")
+	}
+	for _, hc := range cases {
+		sop := op + " " + hc.name
+		if hc.tree == "" {
+			c.H("git-hostile-skip:" + hc.name)
+			continue
+		}
+		out, err := gitCmd(repo, "commit-tree", "-m", hc.name, hc.tree)
+		if err != nil {
+			c.H("git-hostile-skip:" + hc.name)
+			continue
+		}
+		commit := strings.TrimSpace(out)
+		gitCmd(repo, "update-ref", "refs/heads/h-"+hc.name, commit)
+		dst := filepath.Join(base, "dst-"+hc.name, "in")
+		os.MkdirAll(filepath.Dir(dst), 0755)
+		_, uerr, upan := safeCall(func() (api.WareID, error) {
+			return gittrans.Unpack(context.Background(), api.WareID{Type: "git", Hash: commit}, dst, uf, rio.Placement_Direct, wh, rio.Monitor{})
+		})
+		var toks []string
+		for _, e := range hc.walk {
+			toks = append(toks, hx(e[0])+":"+e[1]+":"+hx(e[2]))
+		}
+		modelOp := fmt.Sprintf("git %s %d %d %s", filterInts(uf), os.Getuid(), os.Getgid(), strings.Join(toks, ";"))
+		res := ""
+		switch {
+		case upan != "":
+			res = "panic"
+			c.PropFail("git-panic", "a commit with a hand-written tree ("+hc.name+") made the unpack panic: "+upan, sop)
+		case uerr != nil:
+			res = "err " + catOf(uerr)
+			if catOf(uerr) != "rio-ware-corrupt" {
+				c.PropFail("git-hostile-category", "a malformed tree ("+hc.name+") is reported as "+catOf(uerr)+", not as a corrupt ware", sop)
+			}
+		default:
+			res = listing(dst)
+		}
+		// nothing outside the destination
+		if sibs, _ := os.ReadDir(filepath.Dir(dst)); len(sibs) > 1 {
+			c.PropFail("git-escape", "the unpack of "+hc.name+" left "+sibs[0].Name()+","+sibs[1].Name()+" beside the destination", sop)
+		}
+		if hc.walk == nil { // outside the entry model: only the answer and the escape check count
+			c.H("git-hostile:" + hc.name + ":" + resTok(api.WareID{}, uerr, upan))
+			c.EmitR(sop, "skip", "skip")
+			continue
+		}
+		c.H("git-hostile:" + hc.name + ":" + strings.Fields(res+" x")[0][:min(len(strings.Fields(res+" x")[0]), 5)])
+		c.EmitR(sop, modelOp, res)
+	}
+	// a commit object naming a tree that is not in the repository
+	{
+		sop := op + " missing-tree"
+		body := "tree 4b825dc642cb6eb9a060e54bf8d69288fbee4905\nauthor v <v@v> 978307200 +0000\ncommitter v <v@v> 978307200 +0000\n\nno tree\n"
+		body = strings.Replace(body, "4b825dc642cb6eb9a060e54bf8d69288fbee4905", "1234567890123456789012345678901234567890", 1)
+		if commit, err := gitRawObject(repo, "commit", []byte(body)); err == nil {
+			gitCmd(repo, "update-ref", "refs/heads/h-missing-tree", commit)
+			_, uerr, upan := safeCall(func() (api.WareID, error) {
+				return gittrans.Unpack(context.Background(), api.WareID{Type: "git", Hash: commit}, filepath.Join(base, "dst-mt"), uf, rio.Placement_Direct, wh, rio.Monitor{})
+			})
+			switch {
+			case upan != "":
+				c.PropFail("git-panic", "a commit whose tree object is absent made the unpack panic: "+upan, sop)
+			case uerr == nil:
+				c.PropFail("git-extra", "a commit whose tree object is absent unpacked successfully", sop)
+			}
+			c.H("git-hostile:missing-tree:" + resTok(api.WareID{}, uerr, upan))
+		}
+	}
 	c.EmitR(op, "skip", "skip")
 }
